@@ -1,0 +1,27 @@
+//go:build verif
+
+package pdf
+
+import "io"
+
+// VerifSourceAwareChain wires an arbitrary decoding layer between the two
+// ends of the error path of [DecodeStream]: the sticky source-error checker
+// below it and the promoting reader on top of it.  It adds no logic of its
+// own; it exists so that the verification harness can drive
+// sourceErrChecker.Read and sourceAwareReader.Read with layer behaviours that
+// no real filter exhibits.
+func VerifSourceAwareChain(src io.Reader, layer func(io.Reader) io.ReadCloser) io.ReadCloser {
+	chk := &sourceErrChecker{r: src}
+	return &sourceAwareReader{inner: layer(chk), src: chk}
+}
+
+// VerifPromote returns what [DecodeStream] returns when building the filter
+// chain fails with err after the source has produced srcResults in order.
+func VerifPromote(src io.Reader, reads int, err error) error {
+	chk := &sourceErrChecker{r: src}
+	buf := make([]byte, 16)
+	for i := 0; i < reads; i++ {
+		chk.Read(buf)
+	}
+	return chk.promote(err)
+}
